@@ -62,6 +62,10 @@ CLAIMS["C12"] = dict(
     text="Deductive proof for pixel-space queries on regular tilings: GeoboxTiles.range_from_bbox returns index ranges that contain every tile whose pixel rectangle meets the box (ghost tile, all sizes), stay within the tiling, and are empty for a box strictly outside the raster; pix_bbox and GeoboxTiles[idx] are the tile's region / the parent cropped to it; Tiles/VariableSizedTiles.locate inverts region lookup (C04).",
     note="geometry / CRS-carrying queries (pyproj projection + shapely predicates), itertools enumeration, and both grid_intersect paths are NOT proved: BOUNDED native checks against brute force over all tiles (504 queries on north-up/mirrored/rotated/sheared rasters, regular+variable tilings, same and other CRS) and all tile pairs (34 raster pairs incl. touching, disjoint and cross-CRS)",
     technique=TECH, design_ref="DESIGN.md §2 C12")
+CLAIMS["C05"] = dict(
+    text="Second sentence of the property only (layout arithmetic): deductive proof that tile sides are multiples of 16 (requested size, or the image side for smaller images, rounded up), num_overviews (loop invariant dim == floor(dim0/2**c), termination) leaves a side that fits a block, compute_cog_spec pads each side upwards by < 2**levels to a multiple of 2**levels, a multiple of 2m halves exactly to a multiple of m (each overview exactly half), cog_gbox/expand keep origin and grid (padding on the right/bottom only), yaxis_from_shape, CogMeta tile grid = ceil division, flat_tile_idx = row-major rank, IndexError exactly outside, injective and onto [0, num_tiles) (lemma); structural obligation: tile bags written in reverse creation order (overviews first), header from _patch_hdr for both sinks.",
+    note="NOT decided: that independent TIFF readers decode the original pixels/transform/CRS/nodata (tifffile, imagecodecs, GDAL, dask scheduling). _extract_tile_info (offset table = prefix sums, no gaps/overlaps) and _make_empty_cog (page layout through tifffile) only by BOUNDED native checks (36 pyramids; 240 shape/blocksize/layout combinations incl. single-row/column images); completeness of the observed stream is C06's postcondition; 2**n through the pow2 axioms",
+    technique=TECH + "; loop invariant for num_overviews; structural (AST) obligation for the write order", design_ref="DESIGN.md §2 C05")
 NA = {
     "C09": "xarray object-model behaviour (coords/attrs/encoding propagation); no contract within reach can state it - see DESIGN.md C09",
     "C13": "equality of GDAL warps (whole vs chunked) and dask scheduling; no contract within reach - see DESIGN.md C13",
